@@ -24,6 +24,12 @@ LEAVES = [
     T.lam(T.path("a", "b"), "Any"), T.lst(a, T.path("a", "b"), T.Int(1)), T.Int(1), T.Str("a"), T.I("p"), T.I("x"), T.path("x", "b"),
     T.lam(T.I("zz"), "Any", "x", T.lam(T.path("x", "ys"), "All", "y", T.binop("Gt", T.path("y", "a"), T.path("a", "b")))),
     T.I("a", ("ns",)), T.call("length", T.I("length")),
+    # an inner lambda re-binds the outer variable; the outer variable is used again afterwards
+    T.lam(a, "Any", "x", T.binop("And", T.lam(T.path("x", "ys"), "Any", "x", T.binop("Eq", T.path("x", "p"), b)), T.binop("Eq", T.path("x", "b"), a))),
+    T.lam(T.I("xs"), "All", "a", T.binop("Or", T.lam(T.path("a", "b"), "Any", "a", T.binop("Eq", T.I("a"), T.Int(1))), T.binop("Eq", T.I("a"), b))),
+    # sibling lambdas binding the same name, then a free use of that name
+    T.binop("And", T.binop("And", T.lam(a, "Any", "x", T.binop("Eq", T.path("x", "b"), T.Int(1))), T.lam(b, "All", "x", T.binop("Eq", T.I("x"), T.Int(2)))),
+            T.binop("Eq", T.I("x"), T.path("x", "b"))),
 ]
 LIST_LEAVES = [T.lst(a, T.Int(1)), T.lst(T.path("a", "b")), T.lst(T.I("date"), b)]
 
